@@ -14,6 +14,7 @@ struct RefPeer
 	World& w; unsigned out_next = 1, in_expected = 1; std::map<unsigned, Rec> sent; bool connected = false, logged_on = false;
 	size_t seen = 0; std::vector<std::string> all_app_ids; bool sent_logout = false; int resend_answers = 0, gapfills = 0, my_resend_requests = 0;
 	int cut_after = -1; bool cut_done = false;   // fault: the link drops after this many frames of the next resend answer
+	int live_before = 0;                         // legal but unusual: new application messages go out ahead of the next resend answer
 	explicit RefPeer(World& world) : w(world) {}
 
 	std::string frame(const std::string& type, unsigned seq, const Flds& body, bool possdup, const std::string& orig)
@@ -39,6 +40,7 @@ struct RefPeer
 	{
 		++resend_answers;
 		unsigned last = out_next - 1; if (E == 0 || E > last) E = last;
+		for (; live_before > 0; --live_before) { send("D", Peer::order_body("L" + std::to_string(out_next))); sim::count("model_live_message_ahead_of_resend_answer"); }
 		int frames = 0;
 		for (unsigned s = B; s <= E;)
 		{
@@ -95,7 +97,8 @@ struct C20 : drv::Harness
 			else if (w < 45) p.ops.push_back(Op("padmin"));
 			else if (w < 58) p.ops.push_back(Op("app"));
 			else if (w < 68) p.ops.push_back(Op("disconnect"));
-			else if (w < 72) p.ops.push_back(Op("cut_next_resend", { rng.range(0, 3) }));
+			else if (w < 71) p.ops.push_back(Op("cut_next_resend", { rng.range(0, 3) }));
+			else if (w < 74) p.ops.push_back(Op("live_next_resend", { rng.range(1, 2) }));
 			else if (w < 88) p.ops.push_back(Op("reconnect", { rng.chance(0.3) }));     // arg: restart the session process (file store) instead of just reconnecting
 			else p.ops.push_back(Op("silence", { rng.range(10, 3000) }));
 		}
@@ -159,6 +162,7 @@ struct C20 : drv::Harness
 			else if (op.k == "app") { if (m.connected && w.alive()) w.app_send(w.next_app_id()); }
 			else if (op.k == "silence") sim::advance(op.arg(0) * 1000000ll);
 			else if (op.k == "cut_next_resend") m.cut_after = (int)op.arg(0);
+			else if (op.k == "live_next_resend") m.live_before = (int)op.arg(0);
 			else if (op.k == "disconnect") { if (m.connected) { m.connected = false; m.logged_on = false; ++disconnects; w.settle(); w.drop_connection(); sim::count("fault_disconnect"); } }
 			else if (op.k == "reconnect") { if (!m.connected) { ++reconnects; connect(op.arg(0) != 0); sim::count(op.arg(0) ? "fault_session_restart" : "reconnect"); } }
 			if (m.connected) { exchange(); check_alive("after op#" + std::to_string(i) + " " + op.k); }
@@ -170,6 +174,9 @@ struct C20 : drv::Harness
 			if (!m.connected) { ++reconnects; connect(false); }
 			if (r.v.empty()) { m.send("D", Peer::order_body("FINAL")); exchange(); check_alive("in the final fault-free stretch"); }
 			if (r.v.empty()) { sim::advance(50000000); exchange(); check_alive("in the final fault-free stretch"); }
+			// a message that went out ahead of a resend answer leaves a gap that only the counterparty's next message reveals
+			for (int k = 0; k < 3 && r.v.empty() && w.ses && !w.ses->terminated() && w.ses->nrs() != m.out_next; ++k)
+			{ m.send("0", {}); exchange(); check_alive("in the final fault-free stretch"); sim::count("final_stretch_extra_heartbeat"); }
 		}
 		w.collect();
 		if (r.v.empty())
